@@ -166,7 +166,10 @@ def run_cli(args, cwd, env, stdin=None, strace=False, inject=None, timeout=120, 
     log = None
     cmd = argv
     if strace or inject:
-        fd, log = tempfile.mkstemp(prefix="strace-", dir=os.path.dirname(cwd.rstrip("/")) if os.path.isdir(os.path.dirname(cwd.rstrip("/"))) else None)
+        # the log lives outside every watched tree (a file created next to cwd would touch a directory
+        # the snapshot oracle watches when cwd is a sub-directory of the scratch tree)
+        logdir = "/dev/shm" if os.path.isdir("/dev/shm") and os.access("/dev/shm", os.W_OK) else None
+        fd, log = tempfile.mkstemp(prefix="sv-strace-", dir=logdir)
         os.close(fd)
         cmd = ["strace", "-f", "-qq", "-s", "4096", "-o", log]
         if inject:
